@@ -184,6 +184,7 @@ func (tr *Transaction) setDone() {
 	tr.closed = true
 	tr.db.tr = nil
 	tr.mem.decref()
+	verifTrace(tr.db.s, "x:unlock", 1)
 	<-tr.db.writeLockC
 }
 
@@ -318,6 +319,7 @@ func (db *DB) OpenTransaction() (*Transaction, error) {
 	// The write happen synchronously.
 	select {
 	case db.writeLockC <- struct{}{}:
+		verifTrace(db.s, "x:lock", 1)
 	case err := <-db.compPerErrC:
 		return nil, err
 	case <-db.closeC:
@@ -331,18 +333,21 @@ func (db *DB) OpenTransaction() (*Transaction, error) {
 	// Flush current memdb.
 	if db.mem != nil && db.mem.Len() != 0 {
 		if _, err := db.rotateMem(0, true); err != nil {
+			verifTrace(db.s, "x:unlock", 1)
 			<-db.writeLockC
 			return nil, err
 		}
 	} else if err := db.compTriggerWait(db.mcompCmdC); err != nil {
 		// A frozen memdb may still be flushing; the transaction's tables
 		// must not be committed ahead of it.
+		verifTrace(db.s, "x:unlock", 1)
 		<-db.writeLockC
 		return nil, err
 	}
 
 	// Wait compaction when certain threshold reached.
 	if err := db.waitCompaction(); err != nil {
+		verifTrace(db.s, "x:unlock", 1)
 		<-db.writeLockC
 		return nil, err
 	}
